@@ -140,8 +140,11 @@ class Term(ABC):
         result: list[str] = []
         if args:
             result.extend(map(Op.str, args))
-        if not Op.is_close(self.height, 1.0):
-            result.append(Op.str(self.height))
+        # the height is omitted when the value that is printed equals 1.0 (decided on the printed
+        # value, so that exporting, importing, and exporting again yields the same text)
+        height = Op.str(self.height)
+        if not Op.is_close(to_float(height), 1.0):
+            result.append(height)
         return " ".join(result)
 
     def configure(  # noqa: B027  empty method in an abstract base class
